@@ -31,8 +31,15 @@ pub fn flatten<T>(r: Result<Result<T, String>, String>) -> Result<T, String> {
     }
 }
 
+/// panics raised inside the library are observable events for the monitors and stay quiet; a panic anywhere else is a
+/// bug of the harness and is printed
 pub fn silence_panics() {
-    std::panic::set_hook(Box::new(|_| {}));
+    std::panic::set_hook(Box::new(|info| {
+        let in_library = info.location().map(|l| l.file().starts_with("/repo/") || l.file().contains("/rustc/") || l.file().contains("library/")).unwrap_or(false);
+        if !in_library {
+            eprintln!("HARNESS PANIC: {info}");
+        }
+    }));
 }
 
 pub fn to_a5(c: MCell) -> A5Cell {
@@ -154,4 +161,28 @@ pub fn nearest_face(p: V3) -> (u8, f64, f64) {
         }
     }
     (best.0, best.1, second)
+}
+
+// guarded wrappers of the public hierarchy / compaction API
+pub fn children(id: u64, target: Option<i32>) -> Result<Vec<u64>, String> {
+    flatten(guard(|| a5::cell_to_children(id, target)))
+}
+pub fn parent(id: u64, target: Option<i32>) -> Result<u64, String> {
+    flatten(guard(|| a5::cell_to_parent(id, target)))
+}
+pub fn compact(ids: &[u64]) -> Result<Vec<u64>, String> {
+    flatten(guard(|| a5::compact(ids)))
+}
+pub fn uncompact(ids: &[u64], target: i32) -> Result<Vec<u64>, String> {
+    flatten(guard(|| a5::uncompact(ids, target)))
+}
+pub fn ids_json(ids: &[u64]) -> serde_json::Value {
+    serde_json::Value::Array(ids.iter().map(|i| serde_json::Value::String(crate::report::hu(*i))).collect())
+}
+pub fn parse_ids(v: &serde_json::Value) -> Option<Vec<u64>> {
+    v.as_array()?.iter().map(crate::report::parse_hex_u64).collect()
+}
+/// decode every id of a list; Err names the first non-canonical one
+pub fn decode_all(ids: &[u64]) -> Result<Vec<MCell>, u64> {
+    ids.iter().map(|&i| decode(i).ok_or(i)).collect()
 }
